@@ -195,7 +195,7 @@ __CPROVER_loop_invariant(right_st == (unsigned long)g_r ==>
 __CPROVER_decreases(melem_it.n - melem_it.pos)
 //@end
 
-//@harness h_HP_prepare enforce=HamiltonianPart_prepare props=C03,C07 min_obl=1390 timeout=600 reach=3
+//@harness h_HP_prepare enforce=HamiltonianPart_prepare props=C03,C07 min_obl=1375 timeout=600 reach=3
 void h_HP_prepare(void)
 {
   struct HamiltonianPart *p;
@@ -227,7 +227,7 @@ __CPROVER_ensures((__CPROVER_old(self->Status) < Computed && self->H.rows > 1 &&
                   d_finite(self->Eigenvalues.data[eig_g_b]))
 //@end
 
-//@harness h_HP_compute enforce=HamiltonianPart_compute props=C03 min_obl=534 timeout=300 reach=3 defs=-DVERIF_FP_IEEE
+//@harness h_HP_compute enforce=HamiltonianPart_compute props=C03 min_obl=528 timeout=300 reach=3 defs=-DVERIF_FP_IEEE
 void h_HP_compute(void)
 {
   struct HamiltonianPart *p;
@@ -246,7 +246,7 @@ __CPROVER_assigns(VERIF_thrown)
 __CPROVER_ensures(VERIF_thrown == (self->Status < Computed))
 __CPROVER_ensures(!VERIF_thrown ==> D_SAME(__CPROVER_return_value, self->Eigenvalues.data[state]))
 //@end
-//@harness h_HP_getEigenValue enforce=HamiltonianPart_getEigenValue props=C03 min_obl=102 reach=2 timeout=60
+//@harness h_HP_getEigenValue enforce=HamiltonianPart_getEigenValue props=C03 min_obl=101 reach=2 timeout=60
 void h_HP_getEigenValue(void)
 {
   struct HamiltonianPart *p; unsigned long s;
@@ -272,7 +272,7 @@ __CPROVER_ensures(!VERIF_thrown ==> (0 <= dense_g_minpos && dense_g_minpos < sel
 /* (the ghost position of the minCoeff contract instantiated at 0) */
 __CPROVER_ensures((!VERIF_thrown && dense_g_k == 0) ==> D_EQ(__CPROVER_return_value, self->Eigenvalues.data[0]))
 //@end
-//@harness h_HP_getMinimumEigenvalue enforce=HamiltonianPart_getMinimumEigenvalue props=C03 min_obl=224 reach=2 defs=-DVERIF_FP_IEEE timeout=60
+//@harness h_HP_getMinimumEigenvalue enforce=HamiltonianPart_getMinimumEigenvalue props=C03 min_obl=222 reach=2 defs=-DVERIF_FP_IEEE timeout=60
 void h_HP_getMinimumEigenvalue(void)
 {
   struct HamiltonianPart *p;
@@ -289,7 +289,7 @@ __CPROVER_assigns(VERIF_thrown)
 __CPROVER_ensures(VERIF_thrown == (self->S.Status < Computed))
 __CPROVER_ensures(!VERIF_thrown ==> __CPROVER_return_value == HP_BLOCKSIZE(self))
 //@end
-//@harness h_HP_getSize enforce=HamiltonianPart_getSize props=C03 min_obl=114 reach=2 timeout=60
+//@harness h_HP_getSize enforce=HamiltonianPart_getSize props=C03 min_obl=113 reach=2 timeout=60
 void h_HP_getSize(void)
 {
   struct HamiltonianPart *p;
